@@ -16,9 +16,9 @@ from vlib.runner import fail, must_succeed, quiet
 PROPERTY_ID = 'C18'
 LEVEL = 'exploration'
 DESIGN_REF = 'DESIGN.md section 3, C18'
-RULE = ('Hypothesis generates 1..10 fit results (1..6 fits each, best chi^2 incl. 0, ties, 1e30, inf; n_data 1..5 with '
+RULE = ('Hypothesis generates 1..10 fit results (1..6 fits each, best chi^2 incl. 0, ties, 1e30, inf, NaN after the best fit; n_data 1..5 with '
         'other flags mixed in; with/without predicted fluxes), a criterion chi= or cpd= whose threshold lies strictly '
-        'between attained values, explicit or automatic output names, and the input form (file path or list of result '
+        'between attained values or exactly on one, explicit or automatic output names, and the input form (file path or list of result '
         'objects), preceded by 0..2 earlier calls with other thresholds on the same output names. One evaluation = the last filter_output call with both outputs read back. Non-trivial = >= 2 sources and both '
         'output files non-empty; distinct = distinct canonical JSON.')
 ASSUMPTIONS = [
@@ -59,6 +59,9 @@ def cases(draw):
     thr = lo + (hi - lo) * draw(st.sampled_from([0.5, 0.3, 0.8]))
     if draw(st.integers(0, 9)) == 0:
         thr = 1e31
+    elif finite and draw(st.integers(0, 5)) == 0:
+        # a threshold EQUAL to an attained value: "below the threshold" is strict, that source belongs to the bad file
+        thr = draw(st.sampled_from(finite))
     form = draw(st.sampled_from(['file', 'file', 'list']))
     # histories: earlier calls with other thresholds that wrote to the SAME output names (all good / all bad / a split)
     before = draw(st.lists(st.sampled_from([1e31, -1., 0.75, 3.3]), max_size=2))
@@ -96,6 +99,8 @@ def run_case(case, ctx):
             nd = sum(1 for f in r['source']['flags'] if f in (1, 4))
             stat = best if crit == 'chi' else best / nd
             expect_good.append(stat < thr)
+            if stat == thr:
+                labels.add('threshold_equals_attained_value')
         inp = os.path.join(d, 'input.fitinfo')
         fg.write_fit_file(inp, infos)
         naming = case.get('naming', 'both')
